@@ -292,6 +292,10 @@ func c12RoundTrip(r *Rec, w *World, label string) {
 		r.Fail("C12/export/error", label+": "+err.Error(), nil)
 		return
 	}
+	// the new chain's first node runs in another time zone than the exporting one
+	savedLocal := time.Local
+	time.Local = c01Zones[1+int(w.height)%3]
+	defer func() { time.Local = savedLocal }()
 	w2, p := c12Import(exp.AppState, w.t0, w.height) // InitChain carries the genesis time of the genesis file, which `sekaid export` keeps
 	r.Case(label, true)
 	if p != nil {
